@@ -232,6 +232,25 @@ pub fn run(r: &mut Runner) {
             rec.record(l, idx * 6 + (call - 4) as u64, v);
         }
     });
+    // organic operands: results of one-step chains as both operands
+    {
+        let org = crate::organic::states(1);
+        let a: Vec<[f64; 2]> = org.clone();
+        let b: Vec<[f64; 2]> = if quick { org.iter().step_by(5).cloned().collect() } else { org.clone() };
+        let (na, nb) = (a.len(), b.len());
+        r.notes.push(format!("organic operands: {} chain states (depth 1 from the C01 seeds) x {} of them", na, nb));
+        r.par("organic pairs (chain results as operands)", na, (na * nb) as u64, |i, l| {
+            for (j, y) in b.iter().enumerate() {
+                for call in 0..10usize {
+                    if call >= 4 && y[1].to_bits() != 0 && j % 3 != 0 {
+                        continue;
+                    }
+                    let v = judge(call, a[i], *y, Some(l));
+                    rec.record(l, (1u64 << 61) + ((i * nb + j) * 10 + call) as u64, v);
+                }
+            }
+        });
+    }
     // Iterator::sum == left fold: all sequences up to length L over a small alphabet
     let small: Vec<[f64; 2]> = {
         let mut v = vec![[0.0, 0.0], [-0.0, 0.0], [1.0, 0.0], [-1.0, 0.0], [1.0, 2f64.powi(-53)], [-1.0, 2f64.powi(-54)], [1.0 + 2f64.powi(-52), -2f64.powi(-54)], [2f64.powi(60), 1.5], [2f64.powi(-60), 2f64.powi(-130)], [3.0, -2f64.powi(-130)], [-3.0, 2f64.powi(-130)], [core::f64::consts::PI, 1.2246467991473532e-16], [2f64.powi(-120), 0.0], [-2f64.powi(120), 2f64.powi(10)], [1e300, 1e280], [-1e300, -1e280], [2f64.powi(-1000), 0.0], [0.1, -5.551115123125783e-18]];
